@@ -18,6 +18,7 @@ def gen_session_cfg(rng, idx):
     if idx % 6 == 5:
         # iodined started with another tunnel MTU than its default (announced to the clients in the login reply)
         cfg["srv_mtu"] = random.Random(cfg["rseed"] ^ 0x3717).choice([201, 576, 1280, 1500])   # (what tun_setmtu() accepts: 201..1500)
+    cfg["jitter"] = random.Random(cfg["rseed"] ^ 0x71773).choice([None, None, [0.3, 3000], [0.6, 15000]])    # kernel.sched_jitter
     cfg["sendfaults"] = idx % 4 == 2         # a quarter of the sessions see occasional sendto() failures on the server
     if idx % 7 == 3:
         # tunnel domains with labels of the maximum length (63) and short ones
@@ -130,6 +131,8 @@ def run_session(tag, cfg, seed, ops_filter=None, redeliver=True, setup_only=Fals
     s.why = None
     k = sim.k
     k.keep_snaps = True
+    if cfg.get("jitter"):
+        k.sched_jitter = tuple(cfg["jitter"])
     extra = []
     if cfg.get("check_ip_off"):
         extra.append("-c")
